@@ -183,11 +183,9 @@ func (p *parser) on_parser_qualif(assoc Token, _ Token, prec Token, _ Token) *as
 
 	var err error
 	q.Precedence, err = strconv.Atoi(string(prec.Str))
-	if err != nil {
-		panic(err)
-	}
-	if q.Precedence <= 0 {
-		panic("not-reached")
+	if err != nil || q.Precedence <= 0 {
+		p.errs.Errorf(prec.Pos, "precedence must be a positive integer: %s", prec.Str)
+		q.Precedence = 1
 	}
 
 	return q
